@@ -414,4 +414,19 @@ open Percival.Model.NetbufStep in
 example : (stepOp { bad := some .fuel } .spin).2.ans = .other ∧
     (∃ f, (runOps { bad := some .oob } [.rPeek]).2 = [Out.failed f]) := ⟨rfl, ⟨_, rfl⟩⟩
 
+open Percival.Model.NetbufStep Percival.Proofs.NetbufMonSound in
+/-- … and every callback record of every `spin` line shows bytes the model could read from its own buffer (never
+`0:<a>:model-oob`).  With this, `Out.ans` — the typed answer `monitor_accepts_model` feeds to the monitor — is what
+`Driver/Netbufmon.parseAns` reads from the text `Driver/Netbuf.render` prints on every reachable output
+(checked by evaluation on every output shape in `KAT/NetbufAns.lean`; the unreadable record is the only shape on
+which the two differ). -/
+theorem exec_records_readable (ops : List Spec.NetbufMon.Op) :
+    ∀ o ∈ (runOps {} ops).2, OutReadable o :=
+  run_readable ops {} {} sound_init
+
+/- `OutReadable` is a real restriction -/
+open Percival.Model.NetbufStep Percival.Proofs.NetbufMonSound in
+example : ¬ OutReadable (.spin [.succ 4 none] 0 0 .none 0 NetbufRead.init NetbufWrite.init) :=
+  fun h => h _ (List.mem_singleton.2 rfl)
+
 end Percival.C07
